@@ -486,6 +486,9 @@ ada_really_inline bool url_aggregator::parse_host(std::string_view input) {
           " bytes]");
   ADA_ASSERT_TRUE(validate());
   ADA_ASSERT_TRUE(!helpers::overlaps(input, buffer));
+  // The host is about to be replaced: parse_ipv4/parse_ipv6 set the kind of
+  // the new host, any other host is a domain or an opaque host.
+  host_type = url_host_type::DEFAULT;
   if (input.empty()) {
     return is_valid = false;
   }  // technically unnecessary.
@@ -689,6 +692,7 @@ bool url_aggregator::set_host_or_hostname(const std::string_view input) {
           // host must still give it an (empty) authority, matching ada::url.
           add_authority_slashes_if_needed();
         }
+        host_type = url_host_type::DEFAULT;
         return check_url_size();
       }
 
@@ -712,6 +716,7 @@ bool url_aggregator::set_host_or_hostname(const std::string_view input) {
   if (new_host.empty()) {
     // Set url's host to the empty string.
     clear_hostname();
+    host_type = url_host_type::DEFAULT;
   } else {
     // Let host be the result of host parsing buffer with url is not special.
     if (!parse_host(new_host)) {
@@ -723,6 +728,7 @@ bool url_aggregator::set_host_or_hostname(const std::string_view input) {
     if (helpers::substring(buffer, components.host_start,
                            components.host_end) == "localhost") {
       clear_hostname();
+      host_type = url_host_type::DEFAULT;
     }
   }
   ADA_ASSERT_TRUE(validate());
